@@ -110,6 +110,18 @@ func specC10(tier string, variant int) *SeqSpec {
 			// the key disappears through a flush and is re-created with the same content
 			probe(cs(1, "FLUSHALL"), cs(1, "SET", "ws", "5")), probe(cs(1, "FLUSHDB"), cs(1, "RPUSH", "wl", "e", "e2")), probe(cs(0, "FLUSHALL"), cs(0, "SET", "ws", "5")),
 			probe(cs(1, "FLUSHDB"), cs(1, "HSET", "wh", "f", "1", "g", "x")), probe(cs(1, "FLUSHALL"), cs(1, "SADD", "wz", "m", "n2")))
+		// commands of the watching connection that are refused, or have nothing to do with transactions,
+		// leave the watches alone - whether a watched key has been modified or not
+		for _, keep := range [][]Op{
+			{cs(0, "DISCARD")}, {cs(0, "EXEC")}, {cs(0, "DISCARD"), cs(0, "DISCARD")}, {cs(0, "NOSUCHCMD")}, {cs(0, "WATCH")}, {cs(0, "GET")}, {cs(0, "PING")},
+			{cs(0, "SELECT", "1"), cs(0, "SELECT", "0")}, {cs(0, "SELECT", "99")}, {cs(0, "CLIENT", "SETNAME", "w")}, {cs(0, "HELLO", "3")}, {cs(0, "HELLO", "9")},
+			{cs(0, "MULTI"), cs(0, "MULTI"), cs(0, "DISCARD"), cs(0, "WATCH", "ws", "wl", "wh", "wz", "wn")}, {cs(0, "GET", "ws"), cs(0, "LRANGE", "wl", "0", "-1")}, {cs(0, "BLPOP", "nolist", "0.01")},
+		} {
+			s.Sweep = append(s.Sweep, probe(keep...))
+			for _, mod := range []Op{cs(1, "SET", "ws", "x"), cs(1, "RPUSH", "wl", "x"), cs(1, "SET", "wn", "x"), cs(1, "HSET", "wh", "q", "v"), cs(1, "SADD", "wz", "q")} {
+				s.Sweep = append(s.Sweep, probe(append([]Op{mod}, keep...)...), probe(append(append([]Op{}, keep...), mod)...))
+			}
+		}
 		// chained: operations after which the sweep is repeated (a second transaction on the same
 		// connection, a re-established watch, a modified-but-unwatched past)
 		s.Alphabet = []Op{probe(), probe(cs(1, "SET", "ws", "again")), cs(0, "UNWATCH"), Op{Sess: 0, Args: append([]string{"WATCH"}, c10Watched...)}, cs(1, "SET", "u", "x"), expire}
@@ -200,6 +212,42 @@ func specC14(tier string) *SeqSpec {
 			Op{Sess: sess, Args: []string{"MULTI"}, Then: []Op{cs(sess, "SELECT", "1"), cs(sess, "FLUSHDB"), cs(sess, "DISCARD")}})
 	}
 	s.Alphabet = A
+	// overlapping transactions: two connections inside MULTI at the same time, every interleaving of
+	// their programs at command granularity - each queue belongs to its connection, each EXEC runs its
+	// own commands in its own connection's database (a seeded change of wave 5 let all queues share
+	// one backing array)
+	progs := [][][]string{
+		{{"MULTI"}, {"SET", "k", "a"}, {"RPUSH", "j", "x"}, {"GET", "k"}, {"EXEC"}},
+		{{"MULTI"}, {"SET", "k", "b"}, {"EXEC"}},
+		{{"MULTI"}, {"SELECT", "1"}, {"SET", "k", "c"}, {"DBSIZE"}, {"EXEC"}},
+		{{"MULTI"}, {"FLUSHDB"}, {"EXEC"}},
+		{{"MULTI"}, {"RPUSH", "j", "y"}, {"RPUSH", "j", "z"}, {"DISCARD"}},
+	}
+	var weave func(a, b [][]string, acc []Op, emit func([]Op))
+	weave = func(a, b [][]string, acc []Op, emit func([]Op)) {
+		if len(a) == 0 && len(b) == 0 {
+			emit(append([]Op{}, acc...))
+			return
+		}
+		if len(a) > 0 {
+			weave(a[1:], b, append(acc, Op{Sess: 0, Args: a[0]}), emit)
+		}
+		if len(b) > 0 {
+			weave(a, b[1:], append(acc, Op{Sess: 1, Args: b[0]}), emit)
+		}
+	}
+	for i, pa := range progs {
+		for j, pb := range progs {
+			if tier != "thorough" && (i+2*j)%3 != 0 && i != j {
+				continue
+			}
+			weave(pa, pb, nil, func(seq []Op) {
+				o := seq[0]
+				o.Then = seq[1:]
+				s.InitSweep = append(s.InitSweep, o)
+			})
+		}
+	}
 	s.Depth = 3
 	if tier == "thorough" {
 		s.Depth = 4
